@@ -1,4 +1,4 @@
-import ShellOp.Proofs.Metrics
+import ShellOp.Proofs.MetricsRepl
 /-!
 # C16 — hook metrics: validated as a batch; grouped metrics replaced, not accumulated
 
@@ -137,24 +137,50 @@ theorem explicit_expire (st : State) (common : Labels) (g : Nat) (hg : g ≠ 0) 
 
 /-! ## Values: the statement and what is proved of it -/
 
-/-- what `g` owns, as an association (name, labels) ↦ value. -/
+/-- what `g` owns, as an association (name, labels) ↦ value (`ownedLookup` looks up in it). -/
 def ownedAssoc (st : State) (g : Nat) : List ((Nat × Labels) × Int) :=
   (owned st.gentries g).map fun e => ((e.name, e.key), e.val)
 
-/-- **C16.3a, full statement** (`group_replacement`): for a batch that mentions only group `g`,
-under `NoCrossGroupSeries` (no series addressed by the batch is owned by another group) and
-`NoNameClash` (every written name is free or already a grouped collector of the operation's type),
-the series owned by `g` afterwards are exactly those the batch describes, with the values given.
-This statement is **not proved** here (see notes/C16.md); it is evaluated on every scrape of the
-real storage by the reference-registry oracle, and proved on concrete histories below. -/
-def GroupReplacementStatement : Prop :=
-  ∀ (st : State) (common : Labels) (ops : List Op) (g : Nat),
-    validBatch ops = true → (∀ op ∈ ops, op.group = g) → g ≠ 0 →
-    (∀ op ∈ ops, ∀ e ∈ st.gentries, (e.name, e.key) = opIdent common op → e.group = g) →
-    (∀ op ∈ ops, op.action ≠ "expire" →
-        getOrCreateColl st op.name (if op.action == "add" then .counter else .gauge) ≠ none) →
-    (∀ op ∈ ops, ∀ op' ∈ ops, op.name = op'.name → op.action ≠ "expire" → op'.action ≠ "expire" → op.action = op'.action) →
-    ∀ k, (ownedAssoc (sendBatch st common ops [g]).1 g).lookup k = (Spec.written common ops).lookup k
+/-- **C16.3a** `group_replacement` (partial: hypotheses `NoCrossGroupSeries`, `NoNameClash`, one
+type per name — the recorded finding classes): for a batch of group `g` (valid, as the parser hands
+it over), the series owned by `g` afterwards are exactly those the batch describes, with the values
+given: for every (name, labels), what `g` owns there is what `Spec.written` says — the last `set`,
+the sum of the `add`s, nothing for what was written before an explicit `expire`, nothing for
+anything the batch does not write (whatever `g` reported earlier). -/
+theorem group_replacement_partial (st : State) (common : Labels) (ops : List Op) (g : Nat)
+    (hp : PartOK g ops)
+    (hNoCross : ∀ op ∈ ops, ∀ e ∈ st.gentries, (e.name, e.key) = opIdent common op → e.group = g)
+    (hNoClash : ∀ op ∈ ops, op.action ≠ "expire" → getOrCreateColl st op.name (opFam op) ≠ none) :
+    ∀ k, ownedLookup (sendBatch st common ops [g]).1.gentries g k = (Spec.written common ops).lookup k := by
+  have hv : validBatch ops = true := by
+    simp only [validBatch, List.all_eq_true]; exact hp.valid
+  have hfg : ops.filter (·.group == g) = ops := by
+    simp only [List.filter_eq_self]; intro op hop; simp [hp.grp op hop]
+  have hf0 : ops.filter (·.group == 0) = [] := by
+    simp only [List.filter_eq_nil_iff]; intro op hop; rw [hp.grp op hop]; simpa using hp.gne
+  have hinv : ReplInv common g ops st :=
+    ⟨hNoCross, fun op hop hx => (getOrCreateColl_ne_none st op.name (opFam op)).mp (hNoClash op hop hx)⟩
+  intro k
+  have := foldl_written common g ops hp ops (fun _ h => h) (expireGroup st g) [] hinv.expire
+    (fun k => by rw [ownedLookup_expire]; rfl) k
+  simpa [sendBatch, hv, hfg, hf0, sendBatchV0, applyGroupOperations, Spec.written] using this
+
+/-- non-vacuity of `group_replacement_partial`: a state where `g = 1` already owns two series and
+another group owns one of the same name; the new batch re-sends one, drops one, adds a counter twice. -/
+example :
+    let st : State := {
+      colls := [(10, .gauge)]
+      gentries := [{ name := 10, key := [(3, 4)], val := 10, group := 1 }, { name := 10, key := [(3, 5)], val := 12, group := 1 },
+                   { name := 10, key := [(3, 6)], val := 14, group := 2 }] }
+    let ops : List Op := [{ name := 10, group := 1, action := "set", value := some 8, labels := [(3, 4)] },
+      { name := 11, group := 1, action := "add", value := some 3 }, { name := 11, group := 1, action := "add", value := some 3 }]
+    PartOK 1 ops ∧ (sendBatch st [] ops [1]).1.gentries =
+      [{ name := 10, key := [(3, 6)], val := 14, group := 2 }, { name := 10, key := [(3, 4)], val := 8, group := 1 },
+       { name := 11, key := [], val := 6, group := 1 }] := by
+  refine ⟨⟨by decide, ?_, by decide, by decide, by decide⟩, by decide⟩
+  intro op hop
+  simp only [List.mem_cons, List.not_mem_nil, or_false] at hop
+  rcases hop with rfl | rfl | rfl <;> exact ⟨fun a h => by simp at h, fun a h => by simp at h⟩
 
 /-- `group_replacement` on a concrete history: two groups sharing a name, re-sent with other
 values, fractional counter, explicit expire in the middle. -/
